@@ -178,7 +178,9 @@ theorem verifyRange_sound (hs : H.Sound) :
       exact nodeAt_eq_term H hs f d X hc hnode.symm
     | [tp], h =>
       simp only at h
+      obtain ⟨_, hg1, h⟩ := Outcome.bind_eq_ok h
       obtain ⟨ul, h1, h⟩ := Outcome.bind_eq_ok h
+      obtain ⟨_, hg2, h⟩ := Outcome.bind_eq_ok h
       obtain ⟨seg, h2, h⟩ := Outcome.bind_eq_ok h
       obtain ⟨us, h3, h⟩ := Outcome.bind_eq_ok h
       simp only [Outcome.pure_eq] at h
@@ -201,8 +203,11 @@ theorem verifyRange_sound (hs : H.Sound) :
       exact termOK_of_node H hs _ _ _ hcr tp.terminal hn
     | first :: p2 :: rest, h =>
       simp only at h
+      obtain ⟨_, hg1, h⟩ := Outcome.bind_eq_ok h
       obtain ⟨a, h1, h⟩ := Outcome.bind_eq_ok h
       obtain ⟨b, h2, h⟩ := Outcome.bind_eq_ok h
+      obtain ⟨_, hg2, h⟩ := Outcome.bind_eq_ok h
+      obtain ⟨_, hg3, h⟩ := Outcome.bind_eq_ok h
       obtain ⟨sr, h3, h⟩ := Outcome.bind_eq_ok h
       obtain ⟨idx, h4, h⟩ := Outcome.bind_eq_ok h
       obtain ⟨ls, h5, h⟩ := Outcome.bind_eq_ok h
